@@ -72,3 +72,90 @@ def mk_object(kind, history, nsym=2):
         return {n: str(s) for n, s in r2.to_dict().items()} == want
 
     return check
+
+
+TABLE_HISTORIES = ("none", "sorted", "columns", "filtered", "appended")
+
+
+def mk_table_object(history):
+    """a 3-row table with symbolic small-integer cells (and an empty cell), after a row-model operation, through JSON and back"""
+    TOTAL = 3**2 * 2**3  # x of the third row is fixed (1): ties with either of the other rows still occur
+
+    def check(code: int) -> bool:
+        """
+        pre: 0 <= code < TOTAL
+        post: _
+        """
+        import json
+
+        from cogent3 import make_table
+        from cogent3.util.deserialise import deserialise_object
+
+        _ = TOTAL
+        if not W.PLAIN:
+            from crosshair import deep_realize
+
+            code = deep_realize(code)
+        xs, ys = [], []
+        for _i in range(2):
+            xs.append(code % 3)
+            code //= 3
+        xs.append(1)
+        for _i in range(3):
+            ys.append(code % 2)
+            code //= 2
+        rows = [[f"r{k}", xs[k], 0.5 * ys[k]] for k in range(3)]
+        t = make_table(header=["id", "x", "y"], data=[list(r) for r in rows], title="T", legend="L")
+        if history == "sorted":
+            t = t.sorted(columns=["x", "y"])
+        elif history == "columns":
+            t = t.get_columns(["y", "id"])
+        elif history == "filtered":
+            t = t.filtered(lambda v: v >= 1, columns="x")
+        elif history == "appended":
+            t = t.appended(None, make_table(header=["id", "x", "y"], data=[["r9", xs[0], 0.5]]))
+        if not W.reach("end"):
+            return False
+        r = deserialise_object(json.loads(json.dumps(t.to_rich_dict())))
+        same = type(r).__name__ == "Table" and list(r.header) == list(t.header) and [list(x) for x in r.to_list()] == [list(x) for x in t.to_list()]
+        return same and r.title == t.title and r.legend == t.legend
+
+    return check
+
+
+def mk_dictarray_object(kind):
+    """DictArray / DistanceMatrix with symbolic small-integer cells through JSON and back"""
+    TOTAL = 3**3
+
+    def check(code: int) -> bool:
+        """
+        pre: 0 <= code < TOTAL
+        post: _
+        """
+        import json
+
+        from cogent3.util.deserialise import deserialise_object
+
+        _ = TOTAL
+        if not W.PLAIN:
+            from crosshair import deep_realize
+
+            code = deep_realize(code)
+        v = []
+        for _i in range(3):
+            v.append(code % 3)
+            code //= 3
+        if kind == "DictArray":
+            from cogent3.util.dict_array import DictArrayTemplate
+
+            obj = DictArrayTemplate(["a", "b"], ["x", "y", "z"]).wrap([[v[0], v[1], v[2]], [v[2], v[0], v[1]]])
+        else:
+            from cogent3.evolve.fast_distance import DistanceMatrix
+
+            obj = DistanceMatrix({("a", "b"): v[0] + 0.5, ("a", "c"): v[1] + 0.5, ("b", "c"): v[2] + 0.5})
+        if not W.reach("end"):
+            return False
+        r = deserialise_object(json.loads(json.dumps(obj.to_rich_dict())))
+        return type(r).__name__ == type(obj).__name__ and r.to_dict() == obj.to_dict()
+
+    return check
